@@ -32,6 +32,15 @@ DEFAULT_VALIDATE_UNTIL = -1
 _log = logging.getLogger("cutplace")
 
 
+def _non_empty_path(text):
+    """
+    ``text`` as path given on the command line, which must not be empty.
+    """
+    if not text:
+        raise argparse.ArgumentTypeError("file name must not be empty")
+    return text
+
+
 class CutplaceApp(object):
     """
     Command line application to validate CID's and data.
@@ -102,9 +111,15 @@ class CutplaceApp(object):
         )
         parser.add_argument("--version", action="version", version=version)
         parser.add_argument(
-            "cid_path", metavar="CID-FILE", nargs="?", help="file containing a cutplace interface definition (CID)"
+            "cid_path",
+            metavar="CID-FILE",
+            nargs="?",
+            type=_non_empty_path,
+            help="file containing a cutplace interface definition (CID)",
         )
-        parser.add_argument("data_paths", metavar="DATA-FILE", nargs="*", help="data file(s) to validate")
+        parser.add_argument(
+            "data_paths", metavar="DATA-FILE", nargs="*", type=_non_empty_path, help="data file(s) to validate"
+        )
         args = parser.parse_args(argv[1:])
 
         self._log.setLevel(_tools.LOG_LEVEL_NAME_TO_LEVEL_MAP[args.log_level])
